@@ -25,9 +25,48 @@ PID = "C07"
 TOKRE = re.compile(r"""\(\*.*?\*\)|--[^\n]*|'(?:[^'\n]|'')*'|"[0-9A-Fa-f]*"|%[01]+|[0-9]+\.[0-9]*(?:[eE][-+]?[0-9]+)?|[0-9]+|[A-Za-z_][A-Za-z0-9_]*|<\*|<=|>=|<>|:=:|:<>:|:=|\*\*|\|\||.""", re.S)
 
 
+def strip_remarks(text):
+    """the text without its remarks: embedded remarks nest ((* a (* b *) c *)), a tail remark runs to the end of its line,
+    neither starts inside a string literal or inside the other kind"""
+    out, i, n = [], 0, len(text)
+    while i < n:
+        c = text[i]
+        if c == "'":
+            j = i + 1
+            while j < n and text[j] != "\n":
+                if text[j] == "'":
+                    if text[j + 1:j + 2] == "'":
+                        j += 2
+                        continue
+                    break
+                j += 1
+            out.append(text[i:j + 1])
+            i = j + 1
+        elif text.startswith("--", i):
+            j = text.find("\n", i)
+            i = n if j < 0 else j
+        elif text.startswith("(*", i):
+            depth, j = 1, i + 2
+            while j < n and depth:
+                if text.startswith("(*", j):
+                    depth += 1
+                    j += 2
+                elif text.startswith("*)", j):
+                    depth -= 1
+                    j += 2
+                else:
+                    j += 1
+            out.append(" ")
+            i = j
+        else:
+            out.append(c)
+            i += 1
+    return "".join(out)
+
+
 def tokens(text, keep_parens=False):
     out = []
-    for t in TOKRE.findall(text):
+    for t in TOKRE.findall(strip_remarks(text)):
         if t.isspace() or t.startswith("(*") or t.startswith("--"):
             continue
         if t in "()" and not keep_parens:
